@@ -213,6 +213,8 @@ static void tfd_fire(int i)
 	simk_log(20, i, vnow);
 }
 
+/* pids of really forked children differ from run to run: the event log names them by table index */
+#define PIDLOG(p) ((p)->real ? 90000 + (int)((p) - P) : (int)(p)->pid)
 /* ---- simulated processes (section 2.6) ---------------------------------- */
 #define NPROC 64
 struct sproc {
@@ -231,6 +233,7 @@ struct sproc {
 	struct { int sig; int64_t t; } sigs[32];
 	int	stranger;
 	int	manual_stop;
+	int	real;		/* backed by a really forked process with this pid */
 };
 static struct sproc P[NPROC];
 static int nproc;
@@ -240,7 +243,7 @@ static int nfree_pids;
 static struct simk_child_script next_script;
 static int have_next_script;
 static int kill_after_reap;
-static int real_fork_next;
+static int real_fork_next_t[SIMK_MAXT];
 static void proc_events(void);
 static int64_t proc_next_time(void);
 static void raise_process_sig(int sig);
@@ -533,6 +536,10 @@ void simk_yield(void)
 
 static void block(void)
 {
+	if (passthru) {
+		/* a really forked child has one thread: nothing could ever wake it */
+		_exit(98);
+	}
 	step();
 	switch_to(pick(-1));
 }
@@ -745,6 +752,11 @@ static void lock_acquire(void *m)
 
 	simk_yield();
 	k = lk_find(m, 1);
+	if (passthru) {
+		/* single-threaded child: locks held by threads that do not exist here are free */
+		lk[k].owner = me;
+		return;
+	}
 	if (lk[k].owner == me) {
 		if (simk_obs.deadlock)
 			simk_obs.deadlock("self-deadlock: thread re-acquires a lock it holds");
@@ -1606,7 +1618,7 @@ void simk_next_child_script(const struct simk_child_script *s)
 	next_script = *s;
 	have_next_script = 1;
 }
-void simk_set_real_fork(int on) { real_fork_next = on; }
+void simk_set_real_fork(int on) { real_fork_next_t[me] = on; }	/* applies to the calling thread's next fork() */
 
 static struct sproc *proc_find(pid_t pid)
 {
@@ -1624,7 +1636,7 @@ static void proc_die(struct sproc *p, int status)
 	p->status = status;
 	p->exit_at = -1;
 	p->report_stop = p->report_cont = 0;
-	simk_log(60, p->pid, status);
+	simk_log(60, PIDLOG(p), status);
 	if (simk_obs.child_event)
 		simk_obs.child_event(p->pid, (int)(p - P), 3, status);
 	raise_process_sig(SIGCHLD);
@@ -1767,6 +1779,40 @@ long simk_child_sigcount(pid_t pid, int sig)
 	return n;
 }
 int simk_child_kill_after_reap(void) { return kill_after_reap; }
+/* harness: fork a real child of the run's process; in the child the simulator is pass-through */
+pid_t simk_real_fork(void)
+{
+	pid_t pid;
+	fflush(NULL);
+	pid = fork();
+	if (pid == 0) {
+		passthru = 1;
+		SH = calloc(1, sizeof(*SH));
+		alarm(10);
+	}
+	return pid;
+}
+
+/* harness: block (in real time, the simulated world stands still) until the really forked child has
+ * ended, then make its death visible in the simulated process table; returns its wait status */
+int simk_real_child_wait(pid_t pid)
+{
+	struct sproc *p = proc_find(pid);
+	siginfo_t si;
+	int st = 0;
+
+	memset(&si, 0, sizeof(si));
+	while (waitid(P_PID, (id_t)pid, &si, WEXITED | WNOWAIT) < 0 && errno == EINTR)
+		;
+	if (si.si_code == CLD_EXITED)
+		st = (si.si_status & 0xff) << 8;
+	else
+		st = si.si_status & 0x7f;
+	if (p != NULL && p->real && (p->state == 1 || p->state == 2))
+		proc_die(p, st);
+	return st;
+}
+
 int simk_child_serial(pid_t pid)
 {
 	struct sproc *p = proc_find(pid);
@@ -1803,17 +1849,33 @@ pid_t simk_fork(void)
 		if (atf[i].prep)
 			atf[i].prep();
 
-	if (real_fork_next) {
+	if (real_fork_next_t[me]) {
 		pid_t pid;
-		real_fork_next = 0;
+		real_fork_next_t[me] = 0;
+		fflush(NULL);
 		pid = fork();
 		if (pid == 0) {
-			/* child: single thread, pass-through from here on */
+			/* child: single thread, pass-through from here on; it must not write into the
+			 * result / log area it shares with the parent */
 			passthru = 1;
+			SH = calloc(1, sizeof(*SH));
+			alarm(10);	/* a puppet never outlives its purpose (survives exec) */
 			for (i = 0; i < natf; i++)
 				if (atf[i].child)
 					atf[i].child();
 			return 0;
+		}
+		if (pid > 0 && nproc < NPROC) {
+			p = &P[nproc++];
+			memset(p, 0, sizeof(*p));
+			p->pid = pid;
+			p->state = 1;
+			p->real = 1;
+			p->exit_at = -1;
+			simk_stats.forks++;
+			simk_log(61, 0, 2);
+			if (simk_obs.child_event)
+				simk_obs.child_event(pid, (int)(p - P), 1, 0);
 		}
 		for (i = 0; i < natf; i++)
 			if (atf[i].parent)
@@ -1882,7 +1944,11 @@ pid_t simk_wait4(pid_t pid, int *status, int options, struct rusage *ru)
 	if (p->state == 3) {
 		*status = p->status;
 		p->state = 4;
-		if (nfree_pids < NPROC)
+		if (p->real) {
+			int st;
+			while (waitpid(p->pid, &st, 0) < 0 && errno == EINTR)
+				;
+		} else if (nfree_pids < NPROC)
 			free_pids[nfree_pids++] = p->pid;
 	} else if (p->report_stop) {
 		*status = 0x7f | (SIGSTOP << 8);
@@ -1891,7 +1957,7 @@ pid_t simk_wait4(pid_t pid, int *status, int options, struct rusage *ru)
 		*status = 0xffff;
 		p->report_cont = 0;
 	}
-	simk_log(64, p->pid, *status);
+	simk_log(64, PIDLOG(p), *status);
 	if (simk_obs.reap)
 		simk_obs.reap(me, p->pid, *status);
 	return p->pid;
@@ -1921,7 +1987,7 @@ int simk_kill(pid_t pid, int sig)
 		kill_after_reap++;
 		errno = ESRCH;
 		r = -1;
-		simk_log(66, pid, sig);
+		simk_log(66, PIDLOG(p), sig);
 	} else {
 		int i, reused = 0;
 		/* an older, reaped entry with the same pid means the pid was recycled */
@@ -1934,8 +2000,10 @@ int simk_kill(pid_t pid, int sig)
 			p->sigs[p->nsigs].t = vnow;
 		}
 		p->nsigs++;
-		simk_log(65, pid, sig);
-		if (p->state == 1 || p->state == 2) {
+		simk_log(65, PIDLOG(p), sig);
+		if (p->real && p->state == 1) {
+			kill(p->pid, sig);	/* a puppet child that is (unexpectedly) still running */
+		} else if (p->state == 1 || p->state == 2) {
 			int fatal = 0;
 			if (sig == SIGKILL)
 				fatal = 1;
@@ -2027,6 +2095,7 @@ void simk_run_begin(const struct simk_cfg *c)
 	replay_pos = 0;
 	rr_left = cfg.rr_quantum;
 	steps_since_advance = 0;
+	memset(real_fork_next_t, 0, sizeof(real_fork_next_t));
 	pct_nchange = cfg.pct_depth > 8 ? 8 : cfg.pct_depth;
 	for (i = 0; i < pct_nchange; i++)
 		pct_change[i] = 1 + (long)(mixhash(cfg.sched_seed, 99, (uint64_t)i) % 600);
